@@ -181,9 +181,16 @@ def typestate(ctx):
     R.check("C01-D1c create writes the refreshed bytes", ok, "to_suit_file", mod=io.module, node=io.node, function=ctx.fq(io),
             expected="open(file_name, 'wb').write(self.prepare_suit_data(data))", found=repr(w)[:200])
     cm = repo.func("suit_generator.cmd_create", "main")
-    src = ast.unparse(cm.node)
-    R.check("C01-D1c create writes the refreshed bytes", "envelope.dump(output_file, 'suit')" in src, "cmd_create.main dumps with the 'suit' serializer",
-            mod=cm.module, node=cm.node, function=ctx.fq(cm), expected="envelope.dump(output_file, 'suit')", found="other serializer")
+    couts = [o for o in ev.outcomes(cm) if o.kind == "return"]
+    ccalls = [e.args[0] for o in couts for e in all_effects(o.effects) if isinstance(e, App) and e.op == "eff:call" and isinstance(e.args[0], App)
+              and e.args[0].op == "call" and isinstance(e.args[0].args[0], Ref)]
+    loads = [c for c in ccalls if c.args[0].obj.name == "load"]
+    dumps_ = [c for c in ccalls if c.args[0].obj.name == "dump"]
+    ok = len(couts) == 1 and len(loads) == 1 and len(dumps_) == 1 and list(dumps_[0].args[2:]) == [P("output_file"), Const("suit")] \
+        and loads[0].args[1] == dumps_[0].args[1] and list(loads[0].args[2:]) == [P("input_file"), P("input_format")]
+    R.check("C01-D1c create writes the refreshed bytes", ok, "cmd_create.main dumps with the 'suit' serializer",
+            mod=cm.module, node=cm.node, function=ctx.fq(cm), expected="load(input_file, input_format); dump(output_file, 'suit') on the same envelope object",
+            found=f"{[repr(c)[:100] for c in loads + dumps_]}")
     ser = ctx.ev.const(repo.cls("suit_generator.input_output", "InputOutputMixin").attrs["SERIALIZERS"], repo.mod("suit_generator.input_output"))
     R.rule("C01-D1d serializer table", 1, "'suit' maps to to_suit_file")
     R.check("C01-D1d serializer table", ser.get("suit") == "to_suit_file", "SERIALIZERS['suit']", mod=io.module, node=io.node, function="InputOutputMixin",
